@@ -1,7 +1,8 @@
 (* Properties/C02.v — multivariate parser: the documented language is accepted in
    canonical form; evaluation is the mathematical value; a missing variable is an
    error; agreement with the univariate parser on the common sub-language.
-   Statements only; every proof is `exact` of a lemma of Proofs/Inter*.v.
+   Statements only; every proof is `exact` of a lemma of Proofs/Inter*.v, or of Proofs/ParseFloatI.v
+   (last block: float-level fidelity of the stored coefficients and merged exponents to the text).
    The documented language (syntax trees, [render], [terms_of], [vars_of]) is
    Model/GrammarI.v; the parser and evaluators are Model/Parse.v and Model/Poly.v. *)
 From Coq Require Import ZArith NArith List Bool Reals Floats Sorting.Sorted.
@@ -168,3 +169,151 @@ Example c02_overflow_rejected :
   @parse_inter float FNum uclass_tab (lit "x^" ++ repeat 57%N 400) = Err EInvalidExponent /\
   is_ok (@parse_inter float FNum uclass_tab (repeat 57%N 308 ++ lit "x^" ++ repeat 57%N 308)) = true.
 Proof. vm_compute. repeat split; reflexivity. Qed.
+
+(* ---- FLOAT instance: fidelity of the STORED coefficients to the text (Proofs/ParseFloatI.v) ----
+   What the parser stores (c02_accept_canonical: i_terms = terms_of src = map term_of src): ONE term per written
+   term, in source order — like monomials are NOT merged (c02_terms_not_merged); the only merge is, inside one term,
+   of the exponents of a repeated letter ([sum_exps]: the later exponents are added INTO the first, t-1 additions).
+   The stored coefficient [coef_val neg c] of a term is, for FNum,
+       omitted: (+-)1, exact;   decimal: (+-)dec2float m e, one rounding;
+       fraction a/b: PrimFloat.div ((+-)dec2float a) (dec2float b) — two correctly rounded readings, ONE division.
+   [dterm] = (neg, m, e), [dcoef] its float, [dreal] = (+-) m*10^e, [dmag] = m*10^e, [dec_ok]: 0 or in the normal range
+   (Proofs/ParseFloat.v, pinned in C01: c01_dterm_defs); [idec_dterm neg d] reads the digits of a spelling;
+   [coef_real] the exact rational denoted, [coef_rounds] = 0 / 1 / 3, [coef_okf] the side condition (decimals 0 or
+   normal; for a fraction [okdiv]: quotient finite, denominator non-zero, exact quotient of the two floats 0 or normal —
+   checkable by computation, Proofs.SubstFloat.okdiv_by_leb) — all pinned by unfolding in c02_coef_defs.
+       |B2R coef - exact| <= ((1+eps)^c - 1) |exact|,  c = coef_rounds,  eps = 2^-53.
+   (1+eps)^3 for a fraction is honest because the reading of the DENOMINATOR uses the optimal bound eps/(1+eps) of
+   rounding to nearest (c02_dec2float_rel_error_opt), so that 1/(1+d) = 1+d' with |d'| <= eps.
+   The merged exponent: c02_sum_exps_float_error, ((1+u)(1+eps)^(t-1) - 1) sum|exact| for written exponents of relative
+   error u (u = (1+eps)^c - 1 by c02_parse_i_float_coeff_error through c02_expo_val_as_coef: exponent (1+eps)^(t-1+c)). *)
+From Flocq Require Import Core BinarySingleNaN PrimFloat.
+From SV Require Import Proofs.Stats Proofs.SubstFloat Proofs.DecFloat Proofs.ParseFloat Proofs.ParseFloatI.
+
+Theorem c02_dec2float_rel_error_opt : forall m e : Z,
+  (0 < m)%Z -> (bpow radix2 (-1022) <= dec_val m e <= bpow radix2 1023)%R ->
+  is_finite (Prim2B (dec2float m e)) = true /\
+  (Rabs (B2R (Prim2B (dec2float m e)) - dec_val m e)
+     <= bpow radix2 (-53) / (1 + bpow radix2 (-53)) * dec_val m e)%R.
+Proof. exact Proofs.ParseFloatI.dec2float_rel_error_opt. Qed.
+Check c02_dec2float_rel_error_opt : forall m e : Z,
+  (0 < m)%Z -> (bpow radix2 (-1022) <= dec_val m e <= bpow radix2 1023)%R ->
+  is_finite (Prim2B (dec2float m e)) = true /\
+  (Rabs (B2R (Prim2B (dec2float m e)) - dec_val m e)
+     <= bpow radix2 (-53) / (1 + bpow radix2 (-53)) * dec_val m e)%R.
+Print Assumptions c02_dec2float_rel_error_opt.
+
+(* one written fraction: |fl((+-)fl(a)/fl(b)) - (+-)a/b| <= ((1+eps)^3 - 1) |a/b| *)
+Theorem c02_frac_coef_ok : forall (neg : bool) (ma ea mb eb : Z),
+  dec_ok (neg, ma, ea) -> dec_ok (false, mb, eb) ->
+  okdiv (dcoef (neg, ma, ea)) (dcoef (false, mb, eb)) ->
+  is_finite (Prim2B (PrimFloat.div (dcoef (neg, ma, ea)) (dcoef (false, mb, eb)))) = true /\
+  (Rabs (B2R (Prim2B (PrimFloat.div (dcoef (neg, ma, ea)) (dcoef (false, mb, eb)))) - dreal (neg, ma, ea) / dec_val mb eb)
+    <= ((1 + bpow radix2 (-53)) ^ 3 - 1) * Rabs (dreal (neg, ma, ea) / dec_val mb eb))%R.
+Proof. exact Proofs.ParseFloatI.frac_coef_ok. Qed.
+Check c02_frac_coef_ok : forall (neg : bool) (ma ea mb eb : Z),
+  dec_ok (neg, ma, ea) -> dec_ok (false, mb, eb) ->
+  okdiv (dcoef (neg, ma, ea)) (dcoef (false, mb, eb)) ->
+  is_finite (Prim2B (PrimFloat.div (dcoef (neg, ma, ea)) (dcoef (false, mb, eb)))) = true /\
+  (Rabs (B2R (Prim2B (PrimFloat.div (dcoef (neg, ma, ea)) (dcoef (false, mb, eb)))) - dreal (neg, ma, ea) / dec_val mb eb)
+    <= ((1 + bpow radix2 (-53)) ^ 3 - 1) * Rabs (dreal (neg, ma, ea) / dec_val mb eb))%R.
+Print Assumptions c02_frac_coef_ok.
+
+Theorem c02_coef_defs : forall (neg : bool) (d a b : dec),
+  idec_dterm neg d = (neg, match d_frac d with None => digits_val (d_int d) | Some f => digits_val (d_int d ++ f) end,
+                           match d_frac d with None => 0%Z | Some f => (- Z.of_nat (List.length f))%Z end) /\
+  coef_real neg None = (if neg then -1 else 1)%R /\
+  coef_real neg (Some (CDec d)) = dreal (idec_dterm neg d) /\
+  coef_real neg (Some (CFrac a b)) = (dreal (idec_dterm neg a) / dmag (idec_dterm false b))%R /\
+  coef_rounds None = 0%nat /\ coef_rounds (Some (CDec d)) = 1%nat /\ coef_rounds (Some (CFrac a b)) = 3%nat /\
+  (coef_okf neg None <-> True) /\
+  (coef_okf neg (Some (CDec d)) <-> dec_ok (idec_dterm neg d)) /\
+  (coef_okf neg (Some (CFrac a b)) <->
+     dec_ok (idec_dterm neg a) /\ dec_ok (idec_dterm false b) /\
+     okdiv (dcoef (idec_dterm neg a)) (dcoef (idec_dterm false b))).
+Proof. exact Proofs.ParseFloatI.coef_defs. Qed.
+Check c02_coef_defs : forall (neg : bool) (d a b : dec),
+  idec_dterm neg d = (neg, match d_frac d with None => digits_val (d_int d) | Some f => digits_val (d_int d ++ f) end,
+                           match d_frac d with None => 0%Z | Some f => (- Z.of_nat (List.length f))%Z end) /\
+  coef_real neg None = (if neg then -1 else 1)%R /\
+  coef_real neg (Some (CDec d)) = dreal (idec_dterm neg d) /\
+  coef_real neg (Some (CFrac a b)) = (dreal (idec_dterm neg a) / dmag (idec_dterm false b))%R /\
+  coef_rounds None = 0%nat /\ coef_rounds (Some (CDec d)) = 1%nat /\ coef_rounds (Some (CFrac a b)) = 3%nat /\
+  (coef_okf neg None <-> True) /\
+  (coef_okf neg (Some (CDec d)) <-> dec_ok (idec_dterm neg d)) /\
+  (coef_okf neg (Some (CFrac a b)) <->
+     dec_ok (idec_dterm neg a) /\ dec_ok (idec_dterm false b) /\
+     okdiv (dcoef (idec_dterm neg a)) (dcoef (idec_dterm false b))).
+Print Assumptions c02_coef_defs.
+
+(* every stored coefficient of the parse result *)
+Theorem c02_parse_i_float_coeff_error : forall x : bool * mterm,
+  coef_okf (fst x) (fst (snd x)) ->
+  is_finite (Prim2B (t_coef (@term_of PrimFloat.float FNum x))) = true /\
+  (Rabs (B2R (Prim2B (t_coef (@term_of PrimFloat.float FNum x))) - coef_real (fst x) (fst (snd x)))
+    <= ((1 + bpow radix2 (-53)) ^ coef_rounds (fst (snd x)) - 1) * Rabs (coef_real (fst x) (fst (snd x))))%R.
+Proof. exact Proofs.ParseFloatI.parse_i_float_coeff_error. Qed.
+Check c02_parse_i_float_coeff_error : forall x : bool * mterm,
+  coef_okf (fst x) (fst (snd x)) ->
+  is_finite (Prim2B (t_coef (@term_of PrimFloat.float FNum x))) = true /\
+  (Rabs (B2R (Prim2B (t_coef (@term_of PrimFloat.float FNum x))) - coef_real (fst x) (fst (snd x)))
+    <= ((1 + bpow radix2 (-53)) ^ coef_rounds (fst (snd x)) - 1) * Rabs (coef_real (fst x) (fst (snd x))))%R.
+Print Assumptions c02_parse_i_float_coeff_error.
+
+Theorem c02_terms_not_merged : forall src : msrc,
+  List.length (@terms_of PrimFloat.float FNum src) = List.length src /\
+  forall i x, nth_error src i = Some x -> nth_error (@terms_of PrimFloat.float FNum src) i = Some (term_of x).
+Proof. exact Proofs.ParseFloatI.terms_not_merged. Qed.
+Check c02_terms_not_merged : forall src : msrc,
+  List.length (@terms_of PrimFloat.float FNum src) = List.length src /\
+  forall i x, nth_error src i = Some x -> nth_error (@terms_of PrimFloat.float FNum src) i = Some (term_of x).
+Print Assumptions c02_terms_not_merged.
+
+(* the merge of the exponents of a repeated letter: additions into the first exponent *)
+Theorem c02_sum_exps_float_error : forall (A : Type) (fl : A -> PrimFloat.float) (g : A -> R) (u : R) (l : list A),
+  (0 <= u)%R -> l <> [] ->
+  (forall a, In a l -> is_finite (Prim2B (fl a)) = true /\ (Rabs (B2R (Prim2B (fl a)) - g a) <= u * Rabs (g a))%R) ->
+  (forall k, (1 <= k <= List.length l)%nat ->
+     is_finite (Prim2B (@sum_exps PrimFloat.float FNum (firstn k (map fl l)))) = true) ->
+  is_finite (Prim2B (@sum_exps PrimFloat.float FNum (map fl l))) = true /\
+  (Rabs (B2R (Prim2B (@sum_exps PrimFloat.float FNum (map fl l))) - Rsum (map g l))
+    <= ((1 + u) * (1 + bpow radix2 (-53)) ^ (List.length l - 1) - 1) * Rsum (map (fun a => Rabs (g a)) l))%R.
+Proof. exact @Proofs.ParseFloatI.sum_exps_float_error. Qed.
+Check c02_sum_exps_float_error : forall (A : Type) (fl : A -> PrimFloat.float) (g : A -> R) (u : R) (l : list A),
+  (0 <= u)%R -> l <> [] ->
+  (forall a, In a l -> is_finite (Prim2B (fl a)) = true /\ (Rabs (B2R (Prim2B (fl a)) - g a) <= u * Rabs (g a))%R) ->
+  (forall k, (1 <= k <= List.length l)%nat ->
+     is_finite (Prim2B (@sum_exps PrimFloat.float FNum (firstn k (map fl l)))) = true) ->
+  is_finite (Prim2B (@sum_exps PrimFloat.float FNum (map fl l))) = true /\
+  (Rabs (B2R (Prim2B (@sum_exps PrimFloat.float FNum (map fl l))) - Rsum (map g l))
+    <= ((1 + u) * (1 + bpow radix2 (-53)) ^ (List.length l - 1) - 1) * Rsum (map (fun a => Rabs (g a)) l))%R.
+Print Assumptions c02_sum_exps_float_error.
+
+Theorem c02_expo_val_as_coef : forall e : expo,
+  @expo_val PrimFloat.float FNum e
+  = @coef_val PrimFloat.float FNum (fst e) (Some (match snd e with EDec d => CDec d | EFrac a b => CFrac a b end)).
+Proof. exact Proofs.ParseFloatI.expo_val_as_coef. Qed.
+Check c02_expo_val_as_coef : forall e : expo,
+  @expo_val PrimFloat.float FNum e
+  = @coef_val PrimFloat.float FNum (fst e) (Some (match snd e with EDec d => CDec d | EFrac a b => CFrac a b end)).
+Print Assumptions c02_expo_val_as_coef.
+
+(* non-vacuity: "0.5xy + 1/3xy - 2y" (Proofs.ParseFloatI.ex_isrc) is accepted, THREE terms are stored (the two xy terms
+   side by side), the fraction is fl(fl(1)/fl(3)) = 0x1.5555555555555p-2; every coefficient satisfies [coef_okf];
+   the resulting instance for 1/3 *)
+Example c02_parse_i_float_ex :
+  @wf_src PrimFloat.float FNum ex_isrc = true /\ strip_ws (lit "0.5xy + 1/3xy - 2y") = render false ex_isrc /\
+  @parse_inter PrimFloat.float FNum uclass_tab (lit "0.5xy + 1/3xy - 2y")
+    = Ok {| i_terms := [ {| t_coef := 0.5%float; t_vars := [(lit "x", 1%float); (lit "y", 1%float)] |};
+                         {| t_coef := 0x1.5555555555555p-2%float; t_vars := [(lit "x", 1%float); (lit "y", 1%float)] |};
+                         {| t_coef := (-2)%float; t_vars := [(lit "y", 1%float)] |} ];
+            i_vars := [lit "x"; lit "y"] |} /\
+  PrimFloat.div (dec2float 1 0) (dec2float 3 0) = 0x1.5555555555555p-2%float /\
+  map (@term_of PrimFloat.float FNum) ex_isrc = @terms_of PrimFloat.float FNum ex_isrc.
+Proof. exact Proofs.ParseFloatI.ex_isrc_parse. Qed.
+Example c02_parse_i_float_ex_hyps : forall x, In x ex_isrc -> coef_okf (fst x) (fst (snd x)).
+Proof. exact Proofs.ParseFloatI.ex_isrc_hyps. Qed.
+Example c02_parse_i_float_ex_third :
+  (Rabs (B2R (Prim2B 0x1.5555555555555p-2%float) - dec_val 1 0 / dec_val 3 0)
+    <= ((1 + bpow radix2 (-53)) ^ 3 - 1) * Rabs (dec_val 1 0 / dec_val 3 0))%R.
+Proof. exact Proofs.ParseFloatI.ex_isrc_third. Qed.
